@@ -1,6 +1,7 @@
 /- driver ops for property C05 (model side of the correspondence) -/
 import Rsa.Core.Wire
 import Rsa.Core.Folds
+import Rsa.Core.FoldsGlue
 
 open Lean Rsa.Wire Rsa.Folds
 
@@ -29,13 +30,31 @@ def optNat (j : Json) (k : String) : R (Option Nat) := asOpt asNat (fldD j k Jso
 def optNats (j : Json) (k : String) : R (Option (List Nat)) :=
   asOpt (asList asNat) (fldD j k Json.null)
 
-/-- expansion of the fold pattern ids to bootstrap multiplicities (`_internal_cv`) -/
-def expand (boot : Option (List Nat)) (f : Fold) : Fold :=
-  match boot with
-  | none => f
-  | some b =>
-    { f with train := { f.train with pidx := concatSampling b f.train.pidx }
-             test := { f.test with pidx := concatSampling b f.test.pidx } }
+/-- the three lists of a generator, entry by entry (list position = fold number); every entry
+    carries what `crossval` decides about it (the skip test, from the source-derived leaf) -/
+def setsFields (o : Obj) (dis : Option (List (List (Option Rat)))) (keepAll : Bool) (s : Sets) :
+    List (String × Json) :=
+  let n := max s.trains.length s.tests.length
+  let folds := (List.range n).map fun i =>
+    let skip : Json := match s.trains[i]?, s.tests[i]? with
+      | some tr, some te => Json.bool (Rsa.Gen.C05.cvSkip tr.rows.length te.rows.length
+          tr.conds.length te.conds.length == 1)
+      | _, _ => Json.null
+    obj [("train", match s.trains[i]? with | none => Json.null | some p => partJson o dis keepAll p),
+         ("test", match s.tests[i]? with | none => Json.null | some p => partJson o dis keepAll p),
+         ("ceil", match s.ceils.bind (·[i]?) with | none => Json.null | some p => partJson o dis keepAll p),
+         ("skip", skip)]
+  [("folds", ofList id folds), ("n_train", ofNat s.trains.length), ("n_test", ofNat s.tests.length),
+       ("n_ceil", match s.ceils with | none => Json.null | some c => ofNat c.length),
+       -- what `crossval` / `cv_noise_ceiling` make of these lists (length assertions, pairing)
+       ("crossval_accepts", Json.bool (Rsa.Gen.C05.cvLenOk s.trains.length s.tests.length == 1
+          && (s.ceils.map fun c => Rsa.Gen.C05.cvCeilLenOk c.length s.tests.length) != some 0)),
+       ("nc_pairs", match s.ceils with
+          | none => Json.null
+          | some c => match cvNoisePairsC c s.tests with
+            | .error _ => Json.str "AssertionError"
+            | .ok ps => ofList (fun ct => Json.arr #[ofNats ct.1.rows, ofNats ct.1.conds, ofNats ct.2.rows,
+                ofNats ct.2.conds]) ps)]
 
 def sets (j : Json) : R Json := do
   let gen ← fld j "gen" >>= asStr
@@ -66,22 +85,29 @@ def sets (j : Json) : R Json := do
     && draws.all (fun d => isPermOf d.1 ur && isPermOf d.2 up)
   if !selsOk then throw "shuffle outcome is not a rearrangement of the unique descriptor values"
   let keepAll := gen == "k_fold_rdm" || gen == "of_k_rdm" || gen == "loo_rdm"
-  let res : Except Err (List Fold) ←
+  let ofFolds (fs : List Fold) : Sets := Sets.ofFolds fs (fs.all (·.ceil.isSome))
+  let res : Except Err Sets ←
     match gen with
-    | "k_fold_pattern" => pure (setsKFoldPattern o psel k)
-    | "k_fold_rdm" => pure (setsKFoldRdm o rsel kr)
-    | "k_fold" => pure (setsKFold o rsel kr psels up.length kp)
-    | "of_k_pattern" => pure (setsOfKPattern o psel (k.getD 5))
-    | "of_k_rdm" => pure (setsOfKRdm o rsel (k.getD 5))
-    | "random" => pure (setsRandom o ur.length up.length draws nr np)
-    | "loo_pattern" => pure (.ok (setsLooPattern o up))
-    | "loo_rdm" => pure (.ok (setsLooRdm o ur))
+    | "k_fold_pattern" => pure (setsKFoldPatternC o psel k)
+    | "k_fold_rdm" => pure (setsKFoldRdmC o rsel kr)
+    | "k_fold" => pure (setsKFoldC o rsel kr psels up.length kp)
+    | "of_k_pattern" => pure (setsOfKPatternC o psel (k.getD 5))
+    | "of_k_rdm" => pure (setsOfKRdmC o rsel (k.getD 5))
+    | "random" =>
+      let nr' := randomDefaultNr ur.length nr
+      let np' := randomDefaultNp up.length np
+      pure ((draws.mapM fun d => randomOneC o d nr' np').map fun l =>
+        ({ trains := l.map (·.1), tests := l.map (·.2.1), ceils := some (l.map (·.2.2)) } : Sets))
+    | "loo_pattern" => pure (.ok (ofFolds (setsLooPattern o up)))
+    | "loo_rdm" => pure (.ok (ofFolds (setsLooRdm o ur)))
     | g => throw s!"unknown generator {g}"
   match res with
   | .error e => pure (obj [("exc", Json.str e.name)])
-  | .ok folds =>
-    pure (obj [("folds", ofList (fun f => foldJson o dis keepAll (expand boot f)) folds),
-               ("uniq_r", ofNats ur), ("uniq_p", ofNats up)])
+  | .ok s0 =>
+    let s := match boot with
+      | none => s0
+      | some b => expandSets b s0
+    pure (obj (setsFields o dis keepAll s ++ [("uniq_r", ofNats ur), ("uniq_p", ofNats up)]))
 
 def concat (j : Json) : R Json := do
   let s1 ← fld j "s1" >>= asList asNat
@@ -102,13 +128,28 @@ def defaultK (j : Json) : R Json := do
   let kp' : Int := match kp with
     | some k => k
     | none => Rsa.Gen.C05.defaultKPatternReal xp
-  pure (Json.arr #[ofInt kr', ofInt kp'])
+  -- optional: group counts of the bootstrap samples -> does the guard admit them (from the leaf)
+  let samples ← asOpt (asList (asList asNat)) (fldD j "samples" Json.null)
+  let runs := (samples.getD []).map fun s =>
+    Json.bool (bootcvRuns (s.getD 0 0) kr'.toNat (s.getD 1 0) kp'.toNat)
+  pure (Json.arr #[ofInt kr', ofInt kp', Json.arr runs.toArray,
+    Json.bool (internalCvUsesCvNc kr'.toNat kp'.toNat)])
+
+/-- does `bootstrap_crossval` cross-validate a sample with these group counts; which noise
+    ceiling `_internal_cv` computes -/
+def bootGuard (j : Json) : R Json := do
+  let samples ← fld j "samples" >>= asList (asList asNat)
+  let kr ← fld j "k_rdm" >>= asNat
+  let kp ← fld j "k_pattern" >>= asNat
+  pure (obj [("runs", ofList (fun s => Json.bool (bootcvRuns (s.getD 0 0) kr (s.getD 1 0) kp)) samples),
+             ("cv_nc", Json.bool (internalCvUsesCvNc kr kp))])
 
 def handle : Handler := fun op j =>
   match op with
   | "c05.sets" => some (sets j)
   | "c05.concat" => some (concat j)
   | "c05.default_k" => some (defaultK j)
+  | "c05.boot_guard" => some (bootGuard j)
   | _ => none
 
 end Rsa.Drv.C05
